@@ -15,10 +15,11 @@ import (
 // packnames: the names other tools give their bookkeeping files are ordinary names to rio. Filesets holding staging-file
 // names (`.tmp.upload.*`, `.tmp.unpack.*`), overlay/aufs whiteout names (`.wh.*`), vcs directories, editor droppings,
 // a warehouse laid out by rio itself — packed (tar and zip) from disk:
-//   * the id is the reference tree hash of the *whole* fileset (an entry that never reaches the pack is an entry two
+//   - the id is the reference tree hash of the *whole* fileset (an entry that never reaches the pack is an entry two
 //     different filesets can differ in without their ids differing)                         -> class pack-entry-ignored
-//   * the id does not depend on whether, and where, the ware is saved                       -> class pack-env
-//   * dropping any one such entry, or changing its bytes, changes the id                    -> class collision
+//   - the id does not depend on whether, and where, the ware is saved                       -> class pack-env
+//   - dropping any one such entry, or changing its bytes, changes the id                    -> class collision
+//
 // Recipe: "packnames <tar|zip> <k>".
 func init() { engines["packnames"] = packnamesEngine }
 
@@ -113,7 +114,9 @@ func packnamesExec(c *Ctx, op string) {
 	os.MkdirAll(wh, 0755)
 	for how, tg := range map[string]func(string) api.WarehouseLocation{
 		"saved to a ca+file warehouse": func(string) api.WarehouseLocation { return api.WarehouseLocation("ca+file://" + wh) },
-		"saved to a file warehouse":    func(string) api.WarehouseLocation { return api.WarehouseLocation("file://" + filepath.Join(wh, "mono.w")) },
+		"saved to a file warehouse": func(string) api.WarehouseLocation {
+			return api.WarehouseLocation("file://" + filepath.Join(wh, "mono.w"))
+		},
 	} {
 		if g := pk(full, tg); g != got {
 			c.PropFail("pack-env", fmt.Sprintf("the fileset with entries %q packs to %s when %s and to %s when not saved", names, g, how, got), op)
